@@ -106,6 +106,8 @@ def oracle_axis(R: Run, Ns, Nd, s, t, src, dst):
 
 def oracle_axis_tight(R: Run, Ns, Nd, s, t, src, dst):
     """two-sided: each region is exactly the set of pixels whose footprint overlaps the other image (positive length)"""
+    if Ns == 0 or Nd == 0:
+        return  # an empty image overlaps nothing; the code's answer for the other side is not pinned by the property
     case = {"fn": "compute_axis_overlap", "Ns": Ns, "Nd": Nd, "s": str(s), "t": str(t), "tight": True}
     lo, hi = min(t, s * Nd + t), max(t, s * Nd + t)  # image of the destination axis in source coordinates
     want_src = [k for k in range(Ns) if min(k + 1, hi) - max(k, lo) > 0]
@@ -497,6 +499,17 @@ def run(R: Run):
             line = (f"c03 relrois {sshape[0]} {sshape[1]} {dshape[0]} {dshape[1]} {aff_s(S)} {aff_s(D)} "
                     f"{1 if pad is None else pad} {opt_s(None if al == 0 else al)} 2")
         out = guarded(fplan)
+        # under numpy >= 2 the sampled-boundary path maps the float32 boundary points in float32 (weak python
+        # scalars), so offsets finer than 2^-6 px are not exact there: such cases are compared on the paste path only
+        fine = any(Fraction(v) * 64 % 1 != 0 for v in (M.c, M.f))
+        if fine and not (res and res[0].paste_ok):
+            R.count("plan-not-compared-float32|" + kind)
+            if res:
+                st = (abs(A6[0]), abs(A6[4])) if (A6[1] == 0 and A6[3] == 0) else None
+                oracle_linear(R, {"fn": "compute_reproject_roi", "src_shape": sshape, "dst_shape": dshape,
+                                  "src_affine": list(S)[:6], "dst_affine": list(D)[:6], "ttol": ttol, "padding": pad,
+                                  "align": al, "crs": CRS0}, sshape, dshape, A6, res[0], pad, al, 1e-6, kind + "-fine", st_scale=st)
+            continue
         tag = kind + ("|paste" if res and res[0].paste_ok else "|padded") + (
             f"|rs{min(int(res[0].read_shrink), 3)}" if res else "") + ("|" + placement(res[0], sshape, dshape) if res else "")
         R.corr(line, lambda: out, sig="plan|" + tag + ("|align" if al else "") + ("|pad" if pad else ""))
@@ -843,6 +856,8 @@ def replay(R: Run, rec) -> int:
         o = O.compute_axis_overlap(Ns, Nd, float(s), float(t))
         print("compute_axis_overlap ->", o)
         oracle_axis(R, Ns, Nd, s, t, *o)
+        if case.get("tight") and Ns <= 10**5 and Nd <= 10**5:
+            oracle_axis_tight(R, Ns, Nd, s, t, *o)
     elif case.get("fn") == "compute_reproject_roi":
         O, src, dst, kw = rebuild(case)
         try:
